@@ -1349,7 +1349,7 @@ mod threads {
 
     pub fn matrix(r: &mut Report, args: &Args) {
         let seed = args.seed;
-        let rounds = args.n(2, 12);
+        let rounds = args.n(3, 16);
         let mut cells = Vec::new();
         for round in 0..rounds {
             for entry in Entry::all() {
@@ -1529,7 +1529,7 @@ mod threads {
     /// Section 3: worker threads terminate after the sender is dropped.
     pub fn termination(r: &mut Report, args: &Args) {
         let seed = args.seed;
-        let n = args.n(48, 600);
+        let n = args.n(240, 3_000);
         let children: Vec<Report> = {
             let next = AtomicU64::new(0);
             let workers = 8.min(n as usize).max(1);
@@ -1701,7 +1701,8 @@ fn main() {
 
     // 1. virtual time (delay divisor untouched: the real durations are observed)
     if want("vt") {
-        let n = args.n(4_000, 400_000);
+        // Miri interprets ~1000x slower: its lane passes an absolute case count instead of a scale
+        let n = if cfg!(miri) { args.get_u64("miri-cases", 16) } else { args.n(600_000, 20_000_000) };
         par_cases(&mut r, &args, n, |i, r| vt_case(r, seed, i));
     }
 
